@@ -14,10 +14,10 @@ VARIABLES l, seen
 Trace == JsonDeserialize(IOEnv.TRACE_FILE)
 tvars == <<vars, l, seen>>
 TraceInit == l = 1 /\ seen = [x \in {} |-> 0] /\ mc = Default /\ usecache = TRUE /\ cache = [k \in {} |-> "ok"]
-             /\ result = Pure("trs_attrs", Default) /\ hist = <<>> /\ held = NoHeld /\ cfgobj = NoHeld /\ asked = FALSE
+             /\ result = Pure("trs_attrs", Default) /\ hist = <<>> /\ held = NoHeld /\ cfgobj = NoHeld /\ asked = FALSE /\ dry = FALSE
 
 Consume ==
-  /\ l <= Len(Trace) /\ l' = l + 1 /\ hist' = <<>> /\ cache' = cache /\ held' = held /\ cfgobj' = cfgobj /\ asked' = asked
+  /\ l <= Len(Trace) /\ l' = l + 1 /\ hist' = <<>> /\ cache' = cache /\ held' = held /\ cfgobj' = cfgobj /\ asked' = asked /\ dry' = dry
   /\ LET ev == Trace[l]  o == ev.op IN
        /\ mc' = CASE o.name = "begin" -> Default
                   [] o.name = "set_mc" -> [ns |-> o.a, ew |-> o.b]
